@@ -394,6 +394,7 @@ func (s *set) ToDeals() []*DealBundle {
 		}
 		deals = append(deals, pDeal)
 	}
+	deals = verifOrder(deals)
 	return deals
 }
 
@@ -406,6 +407,7 @@ func (s *set) ToResponses() []*ResponseBundle {
 		}
 		resps = append(resps, pResponse)
 	}
+	resps = verifOrder(resps)
 	return resps
 }
 
@@ -418,6 +420,7 @@ func (s *set) ToJustifications() []*JustificationBundle {
 		}
 		justs = append(justs, pJustification)
 	}
+	justs = verifOrder(justs)
 	return justs
 }
 
